@@ -12,7 +12,7 @@ SPEC = dict(
         "the simulator only moves, drops or duplicates messages a node emitted, and processes each Ready in the order of node/raft.go processReady (new leader sends first; publish, snapshot marker, entries+hardstate, storage.Append, send, Advance)",
         "a restart has exactly what reached the WAL-like durable record (synced records always; an unsynced tail may survive partly)",
         "replica ids are never reused after removal (the cluster layer allocates fresh ids)",
-        "triggers of the recorded known findings (C01-partial-bootstrap-self-election, C03-single-voter-apply-before-wal, C03-restarted-learner-refuses-snapshot, C03-rocksstorage-stale-tail-after-snapshot) are excluded from generation and counted",
+        "the trigger of the one open known finding (C01-partial-bootstrap-self-election) is excluded from generation and counted; the findings of C02/C03 that also broke election safety downstream are repaired in /repo (known_findings.json) and their triggers are generated again",
     ],
     quick=[
         dict(name="l1", pkg=_PKG, test="TestLeaderL1", checks=2400, shards=2),
@@ -35,5 +35,5 @@ TEXT = dict(
     design_ref="DESIGN.md §3-A, §4 C01",
     technique="property-based testing (rapid) of generated schedules and fault sequences over real raft.Node replicas in a schedule-owning simulator; history-invariant oracle on black-box observations (Ready.SoftState/HardState, emitted messages, durable record)",
     level_text="Generated-schedule exploration: the simulator owns network, clocks, disks and the application of 1-5 (plus up to 2 joined) real raft.Node replicas and runs raft code only in StepNode/Ready processing that copies node/raft.go processReady, with crashes at every stage boundary. Three generator layers (uniform, swarm, phase-structured elections that stop at the instant of leadership) plus a membership macro (back-to-back conf changes while commit-carrying messages are withheld from one member, leader isolated, both sides campaign). Checked after every step: at most one replica acts as leader per term; a learner (in its own applied configuration) never leads and never grants a vote; one vote per replica and term among sent votes, durable hard states and across restarts. Held on everything explored outside the excluded triggers of the known findings; no absence claim.",
-    level_note="One genuine violation is recorded as known finding C01-partial-bootstrap-self-election (two leaders in one term; needs a bootstrap member that lost its first WAL write and a message size limit that splits the bootstrap entries); its trigger and those of three C03 findings that also break election safety downstream are excluded by construction (counter excluded_by_known_finding). Trusted: the simulator's model of WAL/snapshot durability (wal.Save/SaveSnapshot sync rules, ValidSnapshotEntries, ReadAll replay) and of the apply goroutine (ApplyConfChange hand-off). The real transport, WAL files and KVNode goroutines are not in the loop (C04-C06, C16). Raft panics are treated as a crash here (they are violations in C02).",
+    level_note="One genuine violation is recorded as known finding C01-partial-bootstrap-self-election (two leaders in one term; needs a bootstrap member that lost its first WAL write and a message size limit that splits the bootstrap entries); its trigger is excluded by construction (counter excluded_by_known_finding). lib/raftsim re-implements the step order of processReady and the replay rule of wal.ReadAll; the real functions are checked by C03's sub-run ready_order, by C05 and by C06. Trusted: the simulator's model of WAL/snapshot durability (wal.Save/SaveSnapshot sync rules, ValidSnapshotEntries, ReadAll replay) and of the apply goroutine (ApplyConfChange hand-off). The real transport, WAL files and KVNode goroutines are not in the loop (C04-C06, C16). Raft panics are treated as a crash here (they are violations in C02).",
 )
